@@ -1,8 +1,8 @@
-// Command verifh is the correspondence harness of /verif: for each property it generates
-// cases from one PRNG state, runs the implementation in /repo (built with -tags verif) on
-// them and writes the cases (for the extracted Coq model) and the implementation's
-// canonicalised observations, one per line.
-package main
+// Package hc is the common part of the correspondence harnesses of /verif: each command
+// under cmd/ generates cases from one PRNG state, runs the implementation in /repo (built
+// with -tags verif) on them and writes the cases (for the extracted Coq model) and the
+// implementation's canonicalised observations, one per line.
+package hc
 
 import (
 	"bufio"
@@ -12,7 +12,6 @@ import (
 	"fmt"
 	"os"
 	"path/filepath"
-	"sort"
 	"strings"
 )
 
@@ -67,7 +66,7 @@ type Out struct {
 	kinds    map[string]int
 	classes  map[string]int
 	samples  []string
-	extra    map[string]interface{}
+	Extra    map[string]interface{}
 	distinct map[string]struct{}
 	nontriv  int
 }
@@ -85,7 +84,7 @@ func NewOut(dir string) *Out {
 		panic(err)
 	}
 	return &Out{dir: dir, cf: cf, imf: imf, cases: bufio.NewWriterSize(cf, 1<<20), impl: bufio.NewWriterSize(imf, 1<<20),
-		kinds: map[string]int{}, classes: map[string]int{}, extra: map[string]interface{}{}, distinct: map[string]struct{}{}}
+		kinds: map[string]int{}, classes: map[string]int{}, Extra: map[string]interface{}{}, distinct: map[string]struct{}{}}
 }
 
 // Case records one case line and the implementation's observation for it.
@@ -111,11 +110,11 @@ func (o *Out) Case(kind, caseLine, implLine, class string, nontrivial bool) {
 		if len(s) > 200 {
 			s = s[:200] + "..."
 		}
-		o.samples = append(o.samples, s+" => "+trunc(implLine, 120))
+		o.samples = append(o.samples, s+" => "+Trunc(implLine, 120))
 	}
 }
 
-func trunc(s string, n int) string {
+func Trunc(s string, n int) string {
 	if len(s) > n {
 		return s[:n] + "..."
 	}
@@ -136,7 +135,7 @@ func (o *Out) Close(rule string) {
 		"samples":             o.samples,
 		"rule":                rule,
 	}
-	for k, v := range o.extra {
+	for k, v := range o.Extra {
 		st[k] = v
 	}
 	b, _ := json.MarshalIndent(st, "", " ")
@@ -145,14 +144,14 @@ func (o *Out) Close(rule string) {
 	}
 }
 
-func hx(b []byte) string {
+func Hx(b []byte) string {
 	if len(b) == 0 {
 		return "-"
 	}
 	return hex.EncodeToString(b)
 }
 
-func unhx(s string) []byte {
+func Unhx(s string) []byte {
 	if s == "-" {
 		return nil
 	}
@@ -165,28 +164,18 @@ func unhx(s string) []byte {
 
 // ---------------------------------------------------------------- main
 
-type cmdFn func(out *Out, r *Rand, tier string, replay []string)
+// CmdFn runs one harness: replay == nil means "generate from r".
+type CmdFn func(out *Out, r *Rand, tier string, replay []string)
 
-var cmds = map[string]cmdFn{}
-
-func main() {
+// Main parses the common flags (-out DIR -seed N -tier quick|thorough -replay FILE) and runs fn.
+func Main(fn CmdFn) {
 	outDir := flag.String("out", "", "output directory")
 	seed := flag.Uint64("seed", 1, "PRNG seed")
 	tier := flag.String("tier", "quick", "quick|thorough")
 	replay := flag.String("replay", "", "file with case lines to run instead of generating")
 	flag.Parse()
-	if flag.NArg() < 1 || *outDir == "" {
-		names := []string{}
-		for k := range cmds {
-			names = append(names, k)
-		}
-		sort.Strings(names)
-		fmt.Fprintln(os.Stderr, "usage: verifh -out DIR [-seed N] [-tier quick|thorough] [-replay FILE] <"+strings.Join(names, "|")+">")
-		os.Exit(2)
-	}
-	fn, ok := cmds[flag.Arg(0)]
-	if !ok {
-		fmt.Fprintln(os.Stderr, "unknown command", flag.Arg(0))
+	if *outDir == "" {
+		fmt.Fprintln(os.Stderr, "usage: <cmd> -out DIR [-seed N] [-tier quick|thorough] [-replay FILE]")
 		os.Exit(2)
 	}
 	var lines []string
@@ -195,6 +184,7 @@ func main() {
 		if err != nil {
 			panic(err)
 		}
+		lines = []string{}
 		for _, l := range strings.Split(string(b), "\n") {
 			l = strings.TrimSpace(l)
 			if l != "" && !strings.HasPrefix(l, "#") {
@@ -204,4 +194,41 @@ func main() {
 	}
 	out := NewOut(*outDir)
 	fn(out, NewRand(*seed), *tier, lines)
+}
+
+// Safely runs f and maps a Go panic to the observation "panic".
+func Safely(f func() string) (res string) {
+	defer func() {
+		if e := recover(); e != nil {
+			res = "panic"
+		}
+	}()
+	return f()
+}
+
+// Cls is the first word of an observation line (its class).
+func Cls(res string) string {
+	if i := strings.IndexByte(res, ' '); i >= 0 {
+		return res[:i]
+	}
+	return res
+}
+
+// Ints / ParseInts: comma separated integer lists inside case lines.
+func Ints(xs []int) string {
+	s := make([]string, len(xs))
+	for i, x := range xs {
+		s[i] = fmt.Sprint(x)
+	}
+	return strings.Join(s, ",")
+}
+
+func ParseInts(s string) []int {
+	var r []int
+	for _, f := range strings.Split(s, ",") {
+		var x int
+		fmt.Sscan(f, &x)
+		r = append(r, x)
+	}
+	return r
 }
